@@ -7,7 +7,7 @@
 (* it is inside the representable domain as XotSerial defines it (so the   *)
 (* domain predicate is not vacuous) and prints it as a JSON forest.        *)
 (***************************************************************************)
-EXTENDS XotSerial, TLC, Json
+EXTENDS XotRender, TLC, Json
 
 CONSTANTS MaxLen, AttrMaxLen, Alphabet, Dump
 
@@ -27,11 +27,19 @@ Mk(shape, V, T) ==
         ELSE <<Nd("doc", 0, <<2>>, "", "", <<>>), Nd("elem", 1, <<3, 5, 6>>, "", "a", <<>>), Nd("elem", 2, <<4>>, "", "b", <<>>),
                Nd("attr", 3, <<>>, "", "b", V), Nd("text", 2, <<>>, "", "", T), Nd("comm", 2, <<>>, "", "", <<120>>)>>
 
-VARIABLE F
-Init == \E shape \in {1, 2}, V \in Strs(AttrMaxLen), T \in Strs(MaxLen) : F = [n |-> Mk(shape, V, T), cons |-> TRUE, eo |-> FALSE]
-Next == UNCHANGED F
-Spec == Init /\ [][Next]_F
+VARIABLES F, outer
+vars == <<F, outer>>
+\* two steps so that TLC's workers share the documents: the initial states fix the shape and the attribute value (forest
+\* still empty), one step adds the character data
+Blank == [n |-> <<>>, cons |-> TRUE, eo |-> FALSE]
+Init == F = Blank /\ outer \in [shape : {1, 2}, V : Strs(AttrMaxLen)]
+Next == /\ F = Blank
+        /\ outer' = outer
+        /\ \E T \in Strs(MaxLen) : F' = [n |-> Mk(outer.shape, outer.V, T), cons |-> TRUE, eo |-> FALSE]
+Spec == Init /\ [][Next]_vars
 
-InDomainAlways == StructValidCore(F.n) /\ Representable(F.n, 1) /\ Usable(F.n, 1)
-DumpState == Dump => PrintT("STATE " \o ToJson(F))
+InDomainAlways == F = Blank \/ (StructValidCore(F.n) /\ Representable(F.n, 1) /\ Usable(F.n, 1))
+\* the round trip inside the specification (XotRender): escaping, line ends, character references
+RT == \A x \in ElemsAndDocs(F.n) : RoundTripOk(F.n, x)
+DumpState == Dump /\ F # Blank => PrintT("STATE " \o ToJson(F))
 =============================================================================
